@@ -32,6 +32,10 @@ def cases(draw, nums):
         return {"curve": draw(gen.weight_magnitude(c, wide=True)), "history": None}
     c = draw(gen.curves(0, 3 if rational else 4, 3 if rational else 4, nums=nums, rational=rational))
     c = draw(gen.weight_magnitude(c, wide=True))  # weights are homogeneous: the derivative does not depend on their common factor
+    if c["num"] in ("frac", "fracint") and draw(st.integers(0, 4)) == 0:
+        # the derivative is invariant under a translation of the parameter, however far from the origin (time stamps)
+        sh = draw(st.sampled_from([F(17 * 10 ** 8), F(-10 ** 12), F(2 ** 31), F(10 ** 15)]))
+        c = dict(c, U=[u + sh for u in c["U"]])
     return {"curve": c, "history": draw(st.sampled_from(lib.HISTORY_MODES))}
 
 
